@@ -87,6 +87,10 @@ def nesting_inputs(rng, quick):
         out.append(("else-if-chain-%d" % d, ("fn main() -> int {\n    let x: int = 1\n    if (== x 0) { (println 0) }" + " else if (== x 1) { (println 1) }" * min(d, 3000) + "\n    return 0\n}\nshadow main { assert (== 1 1) }\n").encode()))
         out.append(("unclosed-parens-%d" % d, ("fn main() -> int {\n    return " + "(+ 1 " * d).encode()))
         out.append(("nested-fn-%d" % d, ("fn main() -> int {\n" + "".join("fn h%d() -> int {\n" % i for i in range(d)) + "return 1\n" + "}\n" * d + "    return 0\n}\nshadow main { assert (== 1 1) }\n").encode()))
+    # nested element-wise array arithmetic: checking time must stay linear in the nesting depth
+    for d in (8, 24, 32, 48, 64, 200):
+        out.append(("array-arith-nest-%d" % d, ("fn main() -> int {\n    let a: array<int> = [1, 2, 3]\n    let r: array<int> = " + "(+ " * d + "a" + " a)" * d + "\n    (println (array_length r))\n    return 0\n}\nshadow main { assert (== 1 1) }\n").encode()))
+        out.append(("array-arith-nest-right-%d" % d, ("fn main() -> int {\n    let a: array<int> = [1, 2, 3]\n    let r: array<int> = " + "(* a " * d + "a" + ")" * d + "\n    (println (array_length r))\n    return 0\n}\nshadow main { assert (== 1 1) }\n").encode()))
     # beyond every limit, through each recursive construct (cheap on a front end that stops at its nesting limit)
     big = 30000
     out.append(("nested-fn-%d" % big, ("fn main() -> int {\n" + "".join("fn h%d() -> int {\n" % i for i in range(big)) + "return 1\n" + "}\n" * big + "    return 0\n}\n").encode()))
@@ -258,6 +262,44 @@ def run(ctx):
             jobs.append((ptree_nohook, p, None) if i >= first_nest else (tdir, p, env))
         with ThreadPoolExecutor(16) as ex:
             res = list(ex.map(front_end, jobs))
+    # multi-file projects: modules that import each other (legal: the module cache breaks the cycle), the same module imported under
+    # two spellings, every way of writing the paths (plain, "./", "../dir/") and of naming the entry file on the command line
+    with tempfile.TemporaryDirectory(prefix="nvc09p", dir="/var/tmp") as pd:
+        pjobs = []
+        for sp_name, pre in (("plain", ""), ("dot", "./"), ("updir", "../proj_updir/")):
+            d = os.path.join(pd, "proj_" + sp_name)
+            os.makedirs(d)
+            open(os.path.join(d, "shapes.nano"), "w").write('import "%sunits.nano"\npub fn shape_area(w: int, h: int) -> int {\n    return (* w (* h (unit_scale)))\n}\nshadow shape_area { assert (== 1 1) }\n' % pre)
+            open(os.path.join(d, "units.nano"), "w").write('import "%sshapes.nano"\npub fn unit_scale() -> int {\n    return 1\n}\nshadow unit_scale { assert (== (unit_scale) 1) }\n' % pre)
+            open(os.path.join(d, "main.nano"), "w").write('import "%sshapes.nano"\nimport "%sunits.nano"\nfn main() -> int {\n    return (- (shape_area 3 4) 12)\n}\nshadow main { assert (== 1 1) }\n' % (pre, pre))
+            open(os.path.join(d, "selfimp.nano"), "w").write('import "%sselfimp.nano"\nfn main() -> int {\n    return 0\n}\nshadow main { assert (== 1 1) }\n' % pre)
+            for entry in ("main.nano", "selfimp.nano"):
+                for cwd, arg in ((d, entry), (d, "./" + entry), (pd, "proj_%s/%s" % (sp_name, entry)), (pd, "./proj_%s/%s" % (sp_name, entry)), (pd, os.path.join(d, entry))):
+                    pjobs.append((sp_name, entry, cwd, arg))
+
+        def run_project(j):
+            sp_name, entry, cwd, arg = j
+            try:
+                p = subprocess.run([os.path.join(ptree_nohook, "bin", "nano_virt"), arg, "--emit-nvm", "-o", os.path.join(pd, "out_%d.nvm" % (hash(j) & 0xffffff))], cwd=cwd,
+                                   stdout=subprocess.PIPE, stderr=subprocess.PIPE, timeout=TIME_LIMIT)
+                return (p.returncode, len(p.stderr), p.stderr.decode(errors="replace")[-300:])
+            except subprocess.TimeoutExpired:
+                return ("timeout", 0, "")
+        with ThreadPoolExecutor(8) as ex:
+            pres = list(ex.map(run_project, pjobs))
+    for (sp_name, entry, cwd, arg), (rc, elen, tail) in zip(pjobs, pres):
+        ctx.case("project:%s:%s:%s" % (sp_name, entry, arg if not arg.startswith("/") else "<abs>"))
+        why = None
+        if rc == "timeout":
+            why = "front end does not finish within %d s" % TIME_LIMIT
+        elif not isinstance(rc, int) or rc not in (0, 1):
+            why = "front end ends with status %s (signal / abort)" % rc
+        elif rc == 1 and elen == 0:
+            why = "rejected without any diagnostic"
+        if why:
+            oracle_fail.append({"input": "project with modules importing each other, paths written with prefix %r, entry %s given as %r" % ({"plain": "", "dot": "./", "updir": "../proj_updir/"}[sp_name], entry, arg if not arg.startswith("/") else "<absolute path>"),
+                                "why": why, "exit": rc, "stderr_tail": tail})
+    ctx.cov["project_invocations"] = len(pjobs)
     classes = {}
     for (name, data), r in zip(inputs, res):
         ctx.case(data)
